@@ -295,14 +295,22 @@ func ruleErrDrop(c *Ctx) []Obligation {
 					continue
 				}
 				used := false
+				var errVal ssa.Value
 				if res.Len() == 1 {
 					used = len(*call.Referrers()) > 0
+					errVal = call
 				} else {
 					for _, r := range *call.Referrers() {
 						if ex, okx := r.(*ssa.Extract); okx && ex.Index == i && len(*ex.Referrers()) > 0 {
 							used = true
+							errVal = ex
 						}
 					}
+				}
+				// tested against nil and then ignored on the non-nil side is a drop as well
+				swallowed := ""
+				if used && errVal != nil {
+					swallowed = c.errOnlyTested(errVal)
 				}
 				key := fmt.Sprintf("%s: %s", c.FnName(fn), desc)
 				seen[key]++
@@ -310,7 +318,13 @@ func ruleErrDrop(c *Ctx) []Obligation {
 				if seen[key] > 1 {
 					con = fmt.Sprintf("%s #%d", key, seen[key])
 				}
-				if used {
+				if swallowed != "" {
+					if why, okj := jget("errDropJustified", errDropJustified, key); okj {
+						obs = append(obs, just(R, con, c.InstrPos(call), why))
+					} else {
+						obs = append(obs, bad(R, con, c.InstrPos(call), swallowed))
+					}
+				} else if used {
 					o := ok(R, con, c.InstrPos(call), "error result is consumed")
 					o.Trivial = true
 					obs = append(obs, o)
@@ -382,4 +396,125 @@ func (c *Ctx) siblingCallRecords(fn *ssa.Function, call *ssa.Call) bool {
 		})
 	}
 	return found
+}
+
+// errOnlyTested: v (an error or []error result) is referred to only by comparisons with nil, and at one of them the
+// non-nil side neither mentions an error (no error is made, recorded or returned there). Returns the complaint, or "".
+func (c *Ctx) errOnlyTested(v ssa.Value) string {
+	var cmps []*ssa.BinOp
+	var others []ssa.Instruction
+	for _, r := range *v.Referrers() {
+		switch x := r.(type) {
+		case *ssa.BinOp:
+			if isNilConst(x.X) || isNilConst(x.Y) {
+				cmps = append(cmps, x)
+				continue
+			}
+			others = append(others, r)
+		case *ssa.DebugRef:
+			continue
+		default:
+			others = append(others, r)
+		}
+	}
+	// a use where the value is known to be nil (on the nil side of one of its own tests) hands on nothing
+	knownNilAt := func(in ssa.Instruction) bool {
+		for _, cmp := range cmps {
+			for _, r := range *cmp.Referrers() {
+				iff, isIf := r.(*ssa.If)
+				if !isIf {
+					continue
+				}
+				nilSide := iff.Block().Succs[1]
+				if cmp.Op.String() == "==" {
+					nilSide = iff.Block().Succs[0]
+				}
+				if len(nilSide.Preds) == 1 && nilSide.Dominates(in.Block()) {
+					if _, isPhi := in.(*ssa.Phi); !isPhi {
+						return true
+					}
+				}
+			}
+		}
+		return false
+	}
+	for _, o := range others {
+		if !knownNilAt(o) {
+			return ""
+		}
+	}
+	if len(cmps) == 0 {
+		return ""
+	}
+	rec := c.errRecorders()
+	for _, cmp := range cmps {
+		if len(*cmp.Referrers()) == 0 {
+			// both arms of the test were the same block and the branch was folded away: an empty body
+			return "the error result is tested against nil at " + c.InstrPos(cmp) + " and then ignored: the test guards nothing"
+		}
+		for _, r := range *cmp.Referrers() {
+			iff, isIf := r.(*ssa.If)
+			if !isIf {
+				return "" // the comparison itself is a value: someone looks at it
+			}
+			blk := iff.Block()
+			nonNil := blk.Succs[0]
+			if cmp.Op.String() == "==" {
+				nonNil = blk.Succs[1]
+			}
+			mentions := false
+			if len(nonNil.Preds) == 1 {
+				for _, b := range blk.Parent().Blocks {
+					if !nonNil.Dominates(b) {
+						continue
+					}
+					for _, in := range b.Instrs {
+						switch y := in.(type) {
+						case ssa.CallInstruction:
+							for _, cal := range c.Callees(y) {
+								if rec[cal] {
+									mentions = true
+								}
+								if n := cal.String(); n == "fmt.Errorf" || n == "errors.New" {
+									mentions = true
+								}
+							}
+							if cal := y.Common().StaticCallee(); cal != nil && c.isRepoFn(cal) {
+								sig := cal.Signature.Results()
+								for k := 0; k < sig.Len(); k++ {
+									if isErrorType(sig.At(k).Type()) || isErrorSlice(sig.At(k).Type()) {
+										mentions = true
+									}
+								}
+							}
+						case *ssa.Return:
+							hasErrRes := false
+							for _, rv := range y.Results {
+								if isErrorType(rv.Type()) || isErrorSlice(rv.Type()) {
+									hasErrRes = true
+									if !isNilConst(rv) {
+										mentions = true
+									}
+								}
+							}
+							// a lookup without an error result reports failure as its zero result
+							if !hasErrRes {
+								for _, rv := range y.Results {
+									if k, isK := rv.(*ssa.Const); isK && (k.Value == nil || k.Value.String() == "false") {
+										mentions = true
+									}
+								}
+							}
+						case *ssa.Panic:
+							mentions = true
+						}
+					}
+				}
+			}
+			if !mentions {
+				return "the error result is tested against nil at " + c.InstrPos(cmp) + " and then ignored: nothing on the non-nil side records, wraps or returns an error"
+			}
+		}
+	}
+	return ""
 }
